@@ -14,6 +14,9 @@ def run(rep, fb, tier):
 
 
 EXTRAS = [
+    lambda rep, fb, tier: __import__("vf.rules.pyrules", fromlist=["x"]).rule_py_simplify_recheck(rep),
+    lambda rep, fb, tier: __import__("vf.rules.pybind", fromlist=["x"]).rule_py_record_methods(rep),
+    lambda rep, fb, tier: __import__("vf.rules.pyrules", fromlist=["x"]).rule_py_numpy_rebuild(rep),
     lambda rep, fb, tier: st.rule_axis(rep, fb, methods=("rpad", "rpad_and_clip"), floor=70),
     lambda rep, fb, tier: guards.rule_const_subscript(rep, fb),
     lambda rep, fb, tier: origin.rule_origin(rep, fb),
